@@ -910,6 +910,8 @@ class SklearnModelEqualizedOddsDifference(SklearnModelUtility):
             groupings = (
                 self._groupings if self._groupings is not None else compute_groupings(X_test, self._sensitive_features)
             )
+            # Models that draw from the global generator must be fitted from a fixed state, as in __call__ and mean_score.
+            np.random.seed(DEFAULT_SEED)
             model = self._model_fit(self.model, X_train, y_train, metadata=metadata_train)
             y_pred = self._model_predict(model, X_test, metadata=metadata_test)
             tpr, fpr = compute_tpr_and_fpr(y_test, y_pred, groupings=groupings)
